@@ -51,6 +51,9 @@ def transitions(state, U, vals, tier):
     lists = wk.list_alphabet(U["l"], U["names"])
     if tier == "thorough":
         lists = lists + special_lists(U["l"])
+    else:
+        # ids >= 2r need two subtractions of r (2^256/r is about 2.2): one unreduced id on every slot also in the quick tier
+        lists = lists + [L for L in special_lists(U["l"]) if len(L["e"]) == 1 and L["e"][0][1] == "max" and not L["omit"]]
     out = []
     if state is None:
         for L in lists:
@@ -66,7 +69,21 @@ def transitions(state, U, vals, tier):
     out.append(["resample", False])
     # adjust_nondelegable between permitted lists (the full (from,to) square is C14's; here: every list against 3 targets)
     if perm:
+        free = set(wk.free_slots(pat))
+
+        def first(pred):
+            for L in perm:
+                if pred(L):
+                    return [L]
+            return []
+        # one target of every kind the merge in adjust_nondelegable distinguishes on a parent-free slot: left free, hidden by an entry,
+        # given a value, dropped by omit-all; plus the first / middle / last list of the alphabet
         targets = [perm[0], perm[len(perm) // 2], perm[-1]]
+        targets += first(lambda L: not L["omit"] and any(i in free and wk.is_hidden(c) for i, c in L["e"]))
+        targets += first(lambda L: not L["omit"] and any(i in free and not wk.is_hidden(c) for i, c in L["e"]) and any(i not in {j for j, _ in L["e"]} for i in free))
+        targets += first(lambda L: L["omit"] and L["e"])
+        seen = set()
+        targets = [t for t in targets if not (wk.lkey(t) in seen or seen.add(wk.lkey(t)))]
         for L1 in perm:
             for L2 in targets:
                 out.append(["adjust", L1, L2])
